@@ -68,6 +68,7 @@ Proof.
     rewrite (timer_keeps_recovery s e Hr Hl), sh_beq_refl. reflexivity.
   - free_rest.
   - free_rest.
+  - free_rest.
   - rewrite <- (step_cfg (s_cfg s) s e eq_refl). apply IH.
 Qed.
 
